@@ -274,8 +274,15 @@ def gen_case(rng, scenario=None):
         case["perm"] = [3 * x - 4 for x in rng.sample(range(n), n)]
     case["alabels"] = rng.choice(["int", "int", "int", "str", "str", "tuple"])
     case["num_type"] = rng.choice(["float", "float", "int", "float32"])
-    if case["num_type"] == "float32" and any(c >= 2 ** 24 for row in succ for _, _, c in row):
-        case["num_type"] = "float"            # msdm must be given exactly the costs of the generated problem
+    if case["num_type"] == "float32":
+        # np.float32 rewards make A*'s sums float32 (24 bits): every g + k*h must be exact there, so only problems whose
+        # total cost is below 2^20, dyadic heuristic scales, and a dead-state heuristic value just above every distance
+        tot = sum(c for row in succ for _, _, c in row) + 1
+        q_ = case["h_scale"][1]
+        if tot >= 2 ** 20 or q_ & (q_ - 1) or scenario == "nested_h":
+            case["num_type"] = "float"
+        else:
+            case["h"] = [tot if x == BIG else x for x in case["h"]]
     case["actions_container"] = rng.choice(["tuple", "list", "dict", "iter", "shared_list", "shared_list"])
     case["shared_dists"] = rng.random() < .3
     case["tabular"] = "/" in case["repr"] and rng.random() < .2
@@ -288,6 +295,8 @@ def gen_case(rng, scenario=None):
             case["shared_planner"] = True
             for c in (case, other):
                 c["heuristic"], c["h"], c["h_scale"] = "zero", [0] * c["n"], [1, 1]
+            if "float32" in (case["num_type"], other["num_type"]):
+                case["num_type"] = other["num_type"] = "float"
             for k in ("tie", "shuffle", "seed", "bfs_seed", "num_type", "assert_monotone"):
                 other[k] = case[k]
         case["late_policy"] = rng.random() < .5      # the first results are only read after the second problem was planned
